@@ -452,7 +452,7 @@ UNITS['build_full']['dyn_types'] += [r'^condition<int\(int\),\(lambdaat.*\)>$', 
 UNITS['build_full']['roots'].update({'BUILD_FULL': '^_ZN14vp_trompeloeil13vp_build_fullE', 'MOCK_FUNC': '9mock_funcILb0EFiiEJRiEE', 'SH2': 'rec:^sequence_handler<2>$'})
 for e, props in (('b_rt_times', ['C01', 'C03', 'C04', 'C05', 'C06', 'C08', 'C14', 'C15']), ('b_two_in_sequence', ['C02', 'C04', 'C05', 'C06', 'C14']), ('b_plain_and_forbid', ['C02', 'C03', 'C04', 'C05', 'C07', 'C14', 'C15']),
                  ('b_full_expectation', ['C01', 'C03', 'C04', 'C05', 'C06', 'C08', 'C14', 'C15', 'C16'])):
-    ob(name='build.%s' % e[2:], kind='FC+', props=props, unit='build_full' if e == 'b_full_expectation' else 'build', harness='h_build.c', entry=e, unwind=6, timeout=600,
+    ob(name='build.%s' % e[2:], kind='FC+' if e in ('b_rt_times', 'b_full_expectation') else 'BL', props=props, unit='build_full' if e == 'b_full_expectation' else 'build', harness='h_build.c', entry=e, unwind=6, timeout=600,
        defines={'WANT_FULL': 1} if e == 'b_full_expectation' else {},
        bound='none for the scalars (free RT_TIMES bounds); one mock object, one sequence, one or two expectations built by the real constructor chain')
 
@@ -464,7 +464,7 @@ UNITS['c09'] = {
 }
 ob(name='scenario.movable_mock_moved', kind='FC+', props=['C14', 'C03', 'C15'], unit='c09', harness='h_c09.c', entry='c_move', unwind=14, timeout=900, object_bits=12, defines={'VP_TOK_CAP': 12},
    bound='none for the argument value; the scenario (movable mock with one active and one saturated expectation, moved, called, over-called) is fixed by the driver function')
-ob(name='scenario.parameter_mismatch_report', kind='FC+', props=['C01', 'C15', 'C10'], unit='c09', harness='h_c09.c', entry='c_param_mismatch', unwind=26, timeout=1200, object_bits=12, defines={'VP_TOK_CAP': 24}, variants=[('fits', {'W_X': 5}), ('rejected', {'W_X': 7})], min_reach=0,
+ob(name='scenario.parameter_mismatch_report', kind='BL', props=['C01', 'C15', 'C10'], unit='c09', harness='h_c09.c', entry='c_param_mismatch', unwind=26, timeout=1200, object_bits=12, defines={'VP_TOK_CAP': 24}, variants=[('fits', {'W_X': 5}), ('rejected', {'W_X': 7})], min_reach=0,
    bound='first argument 5 (fits) or 7 (rejected), second argument free; one expectation p(5, _) on a mock function of arity 2')
 for e in ('c_alias', 'c_lr', 'c_positions', 'c_arity15'):
     ob(name='c09.%s' % e[2:], kind='FC+', props=['C09'], unit='c09', harness='h_c09.c', entry=e, unwind=17 if e == 'c_arity15' else 6, timeout=900, object_bits=12,
